@@ -327,6 +327,15 @@ func Packets(thorough bool, yield func(n *wire.N)) {
 		yield(Eth(nil, 0x0800, IPv4(6, ol, Tcp(5))))
 		yield(Eth(nil, 0x0800, IPv4(17, ol, Udp(5))))
 	}
+	// every header kind the library has a type for, inside the frame that carries it on a real
+	// network, whether or not a decoder is wired to its protocol number today (IGMP under IPv4
+	// protocol 2, in all three versions and with source lists and auxiliary data)
+	for _, ig := range []*wire.N{Igmp12(0x11, 100), Igmp12(0x16, 0), Igmp3Query(0, 0, 2), Igmp3Query(2, 1, 2), Igmp3Report(GroupRec(1, 0)),
+		Igmp3Report(GroupRec(1, 2)), Igmp3Report(GroupRec(2, 1), GroupRecAux(3, 1, 1))} {
+		yield(IPv4(2, 0, ig.Clone()))
+		yield(Eth(nil, 0x0800, IPv4(2, 0, ig.Clone())))
+		yield(Eth(Vlan(1, 0, 9), 0x0800, IPv4(2, 4, ig.Clone())))
+	}
 	// Ethernet x {untagged, tagged} x ethertype x inner
 	inner := []struct {
 		et uint64
